@@ -5,7 +5,7 @@
    gofmt-clean and accepted by the Go compiler is established per program by
    gofmt and the Go compiler in the `units` stream (translation validation). *)
 From Coq Require Import List Bool String Ascii ZArith Arith.
-From Verif Require Import Util Ints Node GoSrc Shapes GenUnits ParserFacts.
+From Verif Require Import Util Ints Node GoSrc Shapes GenUnits ParserFacts LCSound ParserWf.
 Import ListNotations.
 Local Open Scope string_scope.
 
@@ -22,6 +22,15 @@ Theorem C14_eligible_root : forall pkg imp n b, is_root_body b = true ->
   eligible (parse_ast_decl pkg imp n b) = negb (looks_unnamed n).
 Proof. exact eligible_root. Qed.
 Print Assumptions C14_eligible_root.
+
+(* Every declared type of the grammar - any nesting depth; field names distinct, map keys
+   (pointers to) builtin scalars - is parsed by the go/ast parser model into a well-formed node:
+   the premise [wfn] of every emitter theorem (C01 C03 C04 C05 C06 C08 C09 C10 C11 C12) holds
+   for what the generator builds from ANY declaration, not only for the enumerated ones. *)
+Theorem C14_parsed_nodes_wellformed : forall pkg imp n body,
+  wf_ty body = true -> wfn (parse_ast_decl pkg imp n body) = true.
+Proof. exact parse_ast_wfn. Qed.
+Print Assumptions C14_parsed_nodes_wellformed.
 
 (* Scalars never get an inspector. *)
 Theorem C14_scalar_not_eligible : forall pkg imp n k, eligible (parse_ast_decl pkg imp n (TScalar k)) = false.
